@@ -711,6 +711,37 @@ func (c *Chain) makeProposerSlashing(st *refspec.State, blockProposer uint64) (r
 	return refspec.ProposerSlashing{SignedHeader1: mk(0xa1), SignedHeader2: mk(0xa2)}, true
 }
 
+// MakeProposerSlashingOf builds a correctly signed proposer slashing (two headers of the state's slot) of validator v, slashable or not.
+func (c *Chain) MakeProposerSlashingOf(st *refspec.State, v uint64) refspec.ProposerSlashing {
+	sp := c.Sp
+	mk := func(tag byte) refspec.SignedHeader {
+		h := refspec.Header{Slot: st.Slot, ProposerIndex: v, ParentRoot: refspec.Root{tag}, StateRoot: refspec.Root{tag, 1}, BodyRoot: refspec.Root{tag, 2}}
+		sr := sp.SigningRoot(refssz.RootOf(sp.S.Header, h), sp.Domain(st, refspec.DOMAIN_BEACON_PROPOSER, sp.EpochAtSlot(st.Slot)))
+		return refspec.SignedHeader{Message: h, Signature: Sign(c.sk(v, st), sr)}
+	}
+	return refspec.ProposerSlashing{SignedHeader1: mk(0xc1), SignedHeader2: mk(0xc2)}
+}
+
+// MakeAttesterSlashingOf builds a correctly signed double vote of the validators idx (ascending), slashable or not.
+func (c *Chain) MakeAttesterSlashingOf(st *refspec.State, idx []uint64) refspec.AttesterSlashing {
+	sp := c.Sp
+	te := sp.CurrentEpoch(st)
+	src := uint64(0)
+	if te > 0 {
+		src = te - 1
+	}
+	sign := func(tag byte) refspec.IndexedAttestation {
+		d := refspec.AttestationData{Slot: sp.StartSlot(te), Index: 0, BeaconBlockRoot: refspec.Root{tag}, Source: refspec.Checkpoint{Epoch: src, Root: refspec.Root{tag, 1}}, Target: refspec.Checkpoint{Epoch: te, Root: refspec.Root{tag, 2}}}
+		var sks []*blsu.SecretKey
+		for _, i := range idx {
+			sks = append(sks, c.sk(i, st))
+		}
+		sr := sp.SigningRoot(refssz.RootOf(sp.S.AttestationData, d), sp.Domain(st, refspec.DOMAIN_BEACON_ATTESTER, te))
+		return refspec.IndexedAttestation{AttestingIndices: append([]uint64{}, idx...), Data: d, Signature: AggSign(sks, sr)}
+	}
+	return refspec.AttesterSlashing{Attestation1: sign(0xd1), Attestation2: sign(0xd2)}
+}
+
 func (c *Chain) makeAttesterSlashing(st *refspec.State, blockProposer uint64) (refspec.AttesterSlashing, bool) {
 	sp := c.Sp
 	cands := c.slashableValidators(st, blockProposer)
